@@ -328,6 +328,10 @@ def gen_marker(seed, big):
         # target names are compared as whole strings: padding counts on either side
         ("name='f1'", ['f1 '], False), ("name='f1'", [' f1'], False), ("name=' f1'", [' f1'], True), ("name='f1 '", ['f1'], False),
         ("name=''", [' '], False), ("name=' '", [' '], True), ("name='f1'", ['f1\n'], False), ("name='f1'", ['\tf1'], False),
+        # target sets with several members: membership, nothing else (no ordering, no length relation between members)
+        ("name='feature10'", ['feature10', 'feature2'], True), ("name='feature2'", ['feature10', 'feature2'], True), ("name='f1'", ['f1', 'v2'], True),
+        ("name='removal-marker'", ['removal-marker', 'time-limited'], True), ("name='b'", ['a', 'b', 'c'], True), ("name='bb'", ['a', 'bbb', 'c'], False),
+        ("name='zz'", ['a', 'b'], False), ("name='long-feature-name'", ['z', 'long-feature-name', 'm'], True), ("name=''", ['', 'a'], True),
         # attribute names are case-sensitive words
         ("NAME='f1'", ['f1'], False), ("Name='f1'", ['f1'], False), ("name='f1' SKIP", ['f1'], True), ("name='f1' Skip", ['f1'], True), ("NAME='zz' name='f1'", ['f1'], True),
         # a name is one string, not a list
@@ -549,6 +553,11 @@ def gen_list_all(seed, big):
     for d, e in zip(docs, expect):
         src = d % {'rm': RM, 'tl': TL}
         out.append((dict(cfg(), mode='list_all_json', source=src, ds='<', de='>', _pair='list_json'), ('LIST_ALL', src, e)))
+    # an EMPTY target set (the command line's default): removal-markers are still registered elements - all Pending
+    for d, e in (("head\n<%(rm)s name='f1'>\nbody\n</%(rm)s>\ntail\n", (1, 0)),
+                 ("<%(rm)s name='a'>\nx\n</%(rm)s>\n<%(tl)s to='2001-01-01 00:00:00'>\ny\n</%(tl)s>\n<%(rm)s name='b' unwrap-block>\n{\n  <%(tl)s to='2999-01-01 00:00:00'>\n  z\n  </%(tl)s>\n}\n</%(rm)s>\n", (4, 1))):
+        src = d % {'rm': RM, 'tl': TL}
+        out.append((dict(cfg(targets=[]), mode='list_all_json', source=src, ds='<', de='>', _pair='list_json'), ('LIST_ALL', src, e)))
     return out
 
 
@@ -1280,27 +1289,55 @@ def gen_unwrap_inline_mix(seed, big):
     return out
 
 
+def gen_unwrap_backslash(seed, big):
+    """C11 in texts with backslash line continuations (shell, C macros): a line is a physical line. The line behind the
+    opening tag and the line in front of the closing tag go, every other inner line stays - also when lines end in `\\`."""
+    out = []
+    for ds, de in (('# <', '>'), ('<', '>')):
+        tag = f'{TL} to="{PAST}" unwrap-block'
+        docs = [(['echo start', f'{ds}{tag}{de}', 'if [ -n "$A" ] && \\', '   [ -n "$B" ]; then', '  echo released', 'fi', f'{ds}/{TL}{de}', 'echo end'],
+                 ['echo start', '[ -n "$B" ]; then', 'echo released', 'echo end']),
+                (['a', f'{ds}{tag}{de}', '{', '  one \\', '  two \\', '  three \\', '}', f'{ds}/{TL}{de}', 'z'], ['a', 'one \\', 'two \\', 'three \\', 'z']),
+                (['a', f'{ds}{tag}{de}', 'first \\', 'second', f'{ds}/{TL}{de}', 'z'], ['a', 'z']),
+                (['a \\', f'{ds}{tag}{de}', '{ \\', '  keep', '} \\', f'{ds}/{TL}{de}', 'z'], ['a \\', 'keep', 'z'])]
+        for lines, want in docs:
+            src = '\n'.join(lines) + '\n'
+            def oracle(r, want=want, src=src):
+                if not r.get('ok'):
+                    return 'clean panicked: ' + str(r.get('panic'))[:160]
+                got = [l.strip(WS) for l in r['output'].split('\n') if l.strip(WS)]
+                if got != want:
+                    return f'unwrap-block in a text with backslash continuations: lines {got}, expected {want} (source {src!r})'
+                return None
+            out.append((dict(cfg(), mode='clean', source=src, ds=ds, de=de), oracle))
+    return out
+
+
 def gen_blanklines(seed, big):
-    """C13: block-style removal with b blank lines before and a after leaves a+b-[a>0 and b>0] blank lines; lines intact"""
+    """C13: block-style removal with b blank lines before and a after leaves a+b-[a>0 and b>0] blank lines; lines intact -
+    whatever the neighbour lines contain (a statement, a lone closing or opening bracket, a comment, multi-byte text)"""
     out = []
     for ind in ('', '  ', '\t'):
         for b in range(0, 4):
             for a in range(0, 4):
                 for blank in ('', '  ', '\t', ' \t'):
-                    src = ind + 'X é\n' + (blank + '\n') * b + ind + f"<{RM} name='f1'>\n" + ind + '  gone\n' + ind + f"</{RM}>\n" + (blank + '\n') * a + ind + 'Y\n'
-                    want = a + b - (1 if a > 0 and b > 0 else 0)
-                    def oracle(r, want=want, ind=ind):
-                        if not r.get('ok'):
-                            return 'clean panicked: ' + str(r.get('panic'))[:160]
-                        lines = r['output'].split('\n')
-                        nb = [l for l in lines if l.strip(WS)]
-                        if nb != [ind + 'X é', ind + 'Y']:
-                            return f'surviving lines not intact: {nb}'
-                        i0 = lines.index(ind + 'X é'); i1 = lines.index(ind + 'Y')
-                        if i1 - i0 - 1 != want:
-                            return f'{i1 - i0 - 1} blank lines remain, expected {want}: {r["output"]!r}'
-                        return None
-                    out.append((dict(cfg(), mode='clean', source=src, ds='<', de='>'), oracle))
+                    for X, Y in (('X é', 'Y'), ('foo()', '}'), ('if (a) {', ')'), ('[', '];'), ('// c', '} // 終')):
+                        if (X, Y) != ('X é', 'Y') and (blank in ('\t', ' \t') or b == 3 or a == 3):
+                            continue
+                        src = ind + X + '\n' + (blank + '\n') * b + ind + f"<{RM} name='f1'>\n" + ind + '  gone\n' + ind + f"</{RM}>\n" + (blank + '\n') * a + ind + Y + '\n'
+                        want = a + b - (1 if a > 0 and b > 0 else 0)
+                        def oracle(r, want=want, ind=ind, X=X, Y=Y):
+                            if not r.get('ok'):
+                                return 'clean panicked: ' + str(r.get('panic'))[:160]
+                            lines = r['output'].split('\n')
+                            nb = [l for l in lines if l.strip(WS)]
+                            if nb != [ind + X, ind + Y]:
+                                return f'surviving lines not intact: {nb}'
+                            i0 = lines.index(ind + X); i1 = len(lines) - 1 - lines[::-1].index(ind + Y)
+                            if i1 - i0 - 1 != want:
+                                return f'{i1 - i0 - 1} blank lines remain between {X!r} and {Y!r}, expected {want}: {r["output"]!r}'
+                            return None
+                        out.append((dict(cfg(), mode='clean', source=src, ds='<', de='>'), oracle))
     return out
 
 
@@ -1403,7 +1440,7 @@ def gen_list_regions(seed, big):
             kind = rnd.choice(['block', 'inline', 'inline_multi', 'pending', 'unwrap'])
             if kind == 'unwrap':
                 first = len(lines) + 1
-                body = [ind + '  ' + rnd.choice(['keep1();', 'é();']) for _ in range(rnd.randint(1, 3))]
+                body = [rnd.choice([ind + '  keep1();', ind + '  é();', '', ind + '  ']) for _ in range(rnd.randint(0, 3))]
                 lines += [ind + f"<{RM} name='f1' unwrap-block>", ind + 'if x {'] + body + [ind + '}', ind + f"</{RM}>"]
                 regions.append((first, first + 1, f"<{RM} name='f1' unwrap-block>\n" + ind + 'if x {'))
                 regions.append((len(lines) - 1, len(lines), ind + '}\n' + ind + f"</{RM}>"))
@@ -1634,7 +1671,7 @@ def _back_same(t, d):
 
 GENERATORS = {
     'C01': [gen_totality], 'C04': [gen_identity, gen_identity_unwrappable, gen_identity_unrecognised, gen_identity_unexpired, gen_identity_decisions, gen_tag_whitespace, gen_case_sensitive, gen_equal_tag_names], 'C07': [gen_partition], 'C08': [gen_recognition, gen_recognition_entry], 'C05': [gen_expiry, gen_env_independent_expiry], 'C06': [gen_marker, gen_tag_whitespace, gen_case_sensitive, gen_equal_tag_names],
-    'C09': [gen_grammar, gen_opaque_decisions], 'C10': [gen_pairing], 'C02': [gen_blocks, gen_inline, gen_nested_text_survives, gen_unwrap_crlf_text, gen_odd_whitespace_lines, gen_tag_whitespace, gen_large_clean, gen_case_sensitive, gen_unwrap_inline_mix], 'C03': [gen_blocks, gen_inline, gen_nested_text_survives, gen_unwrap_crlf_text, gen_closer_attrs, gen_large_clean, gen_doubled_delims], 'C11': [gen_blocks, gen_unwrap_wrappers, gen_unwrap_four_lines, gen_identity_unwrappable, gen_unwrap_crlf_text, gen_unwrap_comments], 'C17': [gen_list_all],
+    'C09': [gen_grammar, gen_opaque_decisions], 'C10': [gen_pairing], 'C02': [gen_blocks, gen_inline, gen_nested_text_survives, gen_unwrap_crlf_text, gen_odd_whitespace_lines, gen_tag_whitespace, gen_large_clean, gen_case_sensitive, gen_unwrap_inline_mix], 'C03': [gen_blocks, gen_inline, gen_nested_text_survives, gen_unwrap_crlf_text, gen_closer_attrs, gen_large_clean, gen_doubled_delims], 'C11': [gen_blocks, gen_unwrap_wrappers, gen_unwrap_four_lines, gen_identity_unwrappable, gen_unwrap_crlf_text, gen_unwrap_comments, gen_unwrap_backslash], 'C17': [gen_list_all],
     'C12': [gen_dedent, gen_dedent_nested, gen_dedent_crlf], 'C13': [gen_blanklines, gen_blanklines_wide, gen_lines_intact, gen_odd_whitespace_lines], 'C14': [gen_inline, gen_dedent_nested, gen_unwrap_lines_intact, gen_unwrap_lines_intact_crlf, gen_unwrap_inline_mix], 'C15': [gen_list_regions, gen_env_independent_list, gen_large_list],
 }
 
